@@ -58,6 +58,8 @@ def _selector(direction, cls, needs_y, extra=None, with_y=True):
 
         mod = fs if direction == "feature" else ss
         kw = {"n_to_select": 3}
+        if extra == "threshold":
+            kw.update(n_to_select=5, score_threshold=1e-6, score_threshold_type="relative")
         if "init" in a:
             kw["initialize"] = a["init"]
         if cls == "VoronoiFPS":
@@ -93,7 +95,7 @@ def _dch():
     return dict(data=data, est=est, fit=lambda e, a: e.fit(a["X"], a["y"]), use=lambda e, a: {"s": e.score_samples(a["X"], a["y"]), "r": e.score_feature_matrix(a["X"]), "idx": e.selected_idx_})
 
 
-def _pcovr(space, reg):
+def _pcovr(space, reg, solver="auto"):
     def data(rng, k):
         X, Y = _xy(rng, k, p=2, centred=True)
         a = {"X": X, "Y": Y}
@@ -108,7 +110,8 @@ def _pcovr(space, reg):
         from skmatter.decomposition import PCovR
 
         r = {"none": None, "ridge": Ridge(alpha=1e-3, fit_intercept=False), "precomputed": "precomputed"}[reg]
-        return PCovR(mixing=0.5, n_components=2, space=space, regressor=r)
+        extra = {} if solver == "auto" else {"svd_solver": solver, "random_state": 7}
+        return PCovR(mixing=0.5, n_components=2, space=space, regressor=r, **extra)
 
     def fit(e, a):
         return e.fit(a["X"], a["Y"], W=a["W"]) if "W" in a else e.fit(a["X"], a["Y"])
@@ -132,12 +135,16 @@ def _kpcovr(kernel, center=False):
 
         if kernel == "precomputed":
             return KernelPCovR(mixing=0.5, n_components=2, kernel="precomputed", center=center)
+        if kernel == "rbf+krr":
+            from sklearn.kernel_ridge import KernelRidge
+
+            return KernelPCovR(mixing=0.5, n_components=2, kernel="rbf", gamma=0.2, regressor=KernelRidge(kernel="rbf", gamma=0.2, alpha=1e-2))
         return KernelPCovR(mixing=0.5, n_components=2, kernel="rbf", gamma=0.2, center=True, fit_inverse_transform=True)
 
     def use(e, a):
         T = e.transform(a["X"])
         out = {"T": T, "P": e.predict(a["X"]), "s": e.score(a["X"], a["Y"])}
-        if kernel != "precomputed":
+        if kernel == "rbf":
             out["Xr"] = e.inverse_transform(T)
         return out
 
@@ -251,7 +258,7 @@ def _skde(periodic, weighted, normalised=False, loc="fpoints"):
         kw = {"fpoints": 0.4} if loc == "fpoints" else {"fspread": 0.5}
         return SparseKDE(a["D"], a.get("w"), metric_params=a.get("mp"), **kw)
 
-    return dict(data=data, est=est, fit=lambda e, a: e.fit(a["G"]), use=lambda e, a: {"s": e.score_samples(a["Q"]), "S": e.score(a["Q"]), "bw": e.bandwidth_}, same_ctor_data=True)
+    return dict(data=data, est=est, fit=lambda e, a: e.fit(a["G"]), use=lambda e, a: {"s": e.score_samples(a["Q"]), "S": e.score(a["Q"]), "bw": e.bandwidth_, "draw": e.sample(5, random_state=3)}, same_ctor_data=True)
 
 
 def _quickshift(mode, scale):
@@ -305,6 +312,8 @@ SCENARIOS = {
     "feature.FPS(array init)": _selector("feature", "FPS", False, extra="array_init", with_y=False),
     "feature.PCovFPS": _selector("feature", "PCovFPS", True),
     "feature.CUR": _selector("feature", "CUR", False),
+    "feature.CUR(threshold)": _selector("feature", "CUR", False, extra="threshold"),
+    "sample.PCovCUR(threshold)": _selector("sample", "PCovCUR", True, extra="threshold"),
     "feature.PCovCUR": _selector("feature", "PCovCUR", True),
     "sample.FPS(y)": _selector("sample", "FPS", False),
     "sample.FPS(array init)": _selector("sample", "FPS", False, extra="array_init", with_y=False),
@@ -319,7 +328,10 @@ SCENARIOS = {
     "PCovR(sample, Ridge)": _pcovr("sample", "ridge"),
     "PCovR(sample, precomputed W)": _pcovr("sample", "precomputed"),
     "PCovR(feature, precomputed W)": _pcovr("feature", "precomputed"),
+    "PCovR(sample, arpack, random_state)": _pcovr("sample", "none", solver="arpack"),
+    "PCovR(feature, randomized, random_state)": _pcovr("feature", "ridge", solver="randomized"),
     "KernelPCovR(rbf, center)": _kpcovr("rbf"),
+    "KernelPCovR(rbf, KernelRidge)": _kpcovr("rbf+krr"),
     "KernelPCovR(precomputed)": _kpcovr("precomputed"),
     "KernelPCovR(precomputed, center)": _kpcovr("precomputed", center=True),
     # --- preprocessing
@@ -359,6 +371,7 @@ SCENARIOS = {
     "Y_sample_orthogonalizer(copy=True)": _fn(lambda rng, k: {"y": rng.normal(size=(8, 2)), "X": rng.normal(size=(8, 3)), "yr": rng.normal(size=(4, 2)), "Xr": rng.normal(size=(4, 3))}, lambda a: {"v": _U().Y_sample_orthogonalizer(a["y"], a["X"], a["yr"], a["Xr"], copy=True)}),
     "pcovr_covariance": _fn(lambda rng, k: {"X": rng.normal(size=(9, 4)), "Y": rng.normal(size=(9, 2))}, lambda a: {"v": _U().pcovr_covariance(0.5, a["X"], a["Y"]), "w": list(_U().pcovr_covariance(0.3, a["X"], a["Y"], return_isqrt=True))}),
     "pcovr_kernel": _fn(lambda rng, k: {"X": rng.normal(size=(9, 4)), "Y": rng.normal(size=(9, 2))}, lambda a: {"v": _U().pcovr_kernel(0.5, a["X"], a["Y"]), "k": _U().pcovr_kernel(0.5, a["X"] @ a["X"].T, a["Y"], kernel="precomputed")}),
+    "train_test_split": _fn(lambda rng, k: {"X": rng.normal(size=(12, 3)), "y": rng.normal(size=12)}, lambda a: {"v": list(__import__("skmatter.model_selection", fromlist=["train_test_split"]).train_test_split(a["X"], a["y"], train_size=0.6, test_size=0.6, train_test_overlap=True, random_state=1)), "w": list(__import__("skmatter.model_selection", fromlist=["train_test_split"]).train_test_split(a["X"], a["y"], test_size=0.25, random_state=1))}),
     "effdim, oas": _fn(lambda rng, k: {"C": gens.spd(rng, 3, 50.0)}, lambda a: {"e": _U().effdim(a["C"]), "o": _U().oas(a["C"], 7.0, 3)}),
 }
 NAMES = list(SCENARIOS)
